@@ -37,7 +37,7 @@ func (s *scriptedReader) Read(p []byte) (int, error) {
 
 func c18(c *wk.Ctx) {
 	idx := 0
-	n := c.Pick(16, 300)
+	n := c.Pick(32, 600)
 	p := mtp.DHPrime
 	for k := 0; k < n; k++ {
 		if c.Mine(idx) {
